@@ -504,4 +504,13 @@ MUTANTS = [
     {"id": "c13-from-array-rev", "props": ["C13"], "edits": [("src/serde_json.rs", "                s.into_iter()\n                    .map(IntoValue::into_value)", "                s.into_iter()\n                    .skip(0).step_by(1)\n                    .map(IntoValue::into_value)")]},
     {"id": "c13-deserr-rejects-empty-string", "props": ["C13"], "edits": [("src/serde_json.rs", "            Value::String(s) => JValue::String(s),\n            Value::Sequence(seq) => {", "            Value::String(s) if s.len() > 1_000_000 => return Err(take_cf_content(E::error::<V>(error, ErrorKind::Unexpected { msg: String::new() }, location))),\n            Value::String(s) => JValue::String(s),\n            Value::Sequence(seq) => {")]},
     {"id": "c13-value-kind-swapped", "props": ["C13"], "edits": [("src/value.rs", "            Value::Integer(_) => ValueKind::Integer,\n            Value::NegativeInteger(_) => ValueKind::NegativeInteger,", "            Value::Integer(_) => ValueKind::NegativeInteger,\n            Value::NegativeInteger(_) => ValueKind::Integer,")]},
+    # ------------------------------------------------------------------ C20
+    {"id": "c20-actix-422", "props": ["C20"], "edits": [("src/actix_web/serde_json.rs", "        actix_web::http::StatusCode::BAD_REQUEST", "        actix_web::http::StatusCode::UNPROCESSABLE_ENTITY")]},
+    {"id": "c20-actix-framework-error-replaced", "props": ["C20"], "edits": [("src/actix_web/serde_json.rs", "            Err(err) => Err(err),", "            Err(err) => Err(actix_web::error::ErrorBadRequest(err.to_string())),")]},
+    {"id": "c20-actix-default-on-null", "props": ["C20"], "edits": [("src/actix_web/serde_json.rs", "            Ok(data) => match deserr::deserialize::<_, _, E>(data.into_inner()) {", "            Ok(data) => match deserr::deserialize::<_, _, E>({ let v = data.into_inner(); if v.is_null() { serde_json::Value::Object(Default::default()) } else { v } }) {")]},
+    {"id": "c20-query-lowercased", "props": ["C20"], "edits": [("src/actix_web/query_parameters.rs", "        let value = Query::<serde_json::Value>::from_query(query_str)?;", "        let lowered = query_str.to_lowercase();\n        let value = Query::<serde_json::Value>::from_query(&lowered)?;")]},
+    {"id": "c20-axum-rejection-always-deserr", "props": ["C20"], "edits": [("src/axum/serde_json.rs", "            AxumJsonRejection::JsonRejection(e) => e.into_response(),\n        }\n    }\n}\n\nimpl IntoResponse for JsonError", "            AxumJsonRejection::JsonRejection(e) => (StatusCode::BAD_REQUEST, e.body_text()).into_response(),\n        }\n    }\n}\n\nimpl IntoResponse for JsonError")]},
+    {"id": "c20-axum-body-empty", "props": ["C20"], "edits": [("src/axum/serde_json.rs", "        (StatusCode::BAD_REQUEST, self.to_string()).into_response()", "        (StatusCode::BAD_REQUEST, String::new()).into_response()")]},
+    {"id": "c20-axum-null-is-ok", "props": ["C20"], "edits": [("src/axum/serde_json.rs", "        let data = deserr::deserialize::<_, _, _>(value)?;", "        let value = if value.is_null() { serde_json::json!({}) } else { value };\n        let data = deserr::deserialize::<_, _, _>(value)?;")]},
+    {"id": "c20-query-error-swallowed", "props": ["C20"], "edits": [("src/actix_web/query_parameters.rs", "            .map(ok)\n            .unwrap_or_else(err)", "            .map(ok)\n            .unwrap_or_else(|e| err(actix_web::error::ErrorBadRequest(e.to_string())))")]},
 ]
